@@ -27,7 +27,7 @@ From Soy Require Import Model.Bytes Model.Num Model.Values Model.Ast Model.Token
   Model.AstPrint Generated.Tables Spec.ExprSyntax Proofs.ExprParserRules Proofs.LiteralProofs Proofs.ExprParserProofs Proofs.PlaceholderTextProofs.
 From Soy Require Import Model.Outcome Model.MsgId Proofs.MsgIdProofs.
 From Soy Require Import Model.Lexer Model.Parser Proofs.LexPrintMain Proofs.LexParseText Proofs.LexPrintCmd Proofs.PrintCmdText.
-From Soy Require Import Model.RawText Model.Parser Model.AstPrintCmd Spec.CmdSyntax Proofs.CmdRoundtripBase Proofs.CmdRoundtripRules Proofs.CmdRoundtrip Proofs.ExprParserMono Proofs.CmdParserStripDefs Proofs.CmdParserStripMain Proofs.CmdRoundtripStrip.
+From Soy Require Import Model.RawText Model.Parser Model.AstPrintCmd Spec.CmdSyntax Proofs.CmdRoundtripBase Proofs.CmdRoundtripRules Proofs.CmdRoundtrip Proofs.ExprParserMono Proofs.CmdParserStripDefs Proofs.CmdParserStripMain Proofs.CmdRoundtripStrip Proofs.LexBodyC17Body Proofs.LexBodyC17Top Proofs.CmdRoundtripBytes.
 Open Scope N_scope.
 
 (* Parsing the items of the printed expression gives back the expression itself (positions
@@ -450,3 +450,64 @@ Example C17_any_positions_nonvacuous :
   | _ => False
   end.
 Proof. vm_compute. split; [reflexivity | discriminate]. Qed.
+
+(* ---- template bodies at TEXT level.  C17_lex_body_partial: the scanner model in file mode on the string
+   String() writes for a body of the class lb17_okb (Proofs/LexBodyC17Body.v) sends exactly the items of
+   body_toks (types and texts), then EOF: lexText on the text stretches, lexLeftDelim / lexBeginTag with the
+   keyword table for "{if " "{let " "{for " ..., lexInsideTag for the expressions (lex_print), both right
+   delimiters back to lexText, the closing tags "{/if}" .., lexCss, attribute strings.  PARTIAL in the class:
+   raw text without "/" (no comment test), print, {debugger}, {log}, {let} in both forms, {if}/{elseif}/{else},
+   {for}/{ifempty} with a plain variable as the list (lb17_anylast: the expression after "in" is lexed with
+   a term as the previous item), {switch} whose cases all have values (the default case prints as "{case }": W1),
+   {css}, {call} with data="all" / data="e" / content parameters; NOT {param k: e/} and the bare {call x.y/}
+   (lex_print's follow set has no "/"), {msg} / {plural}.
+   C17_template_body_text_roundtrip_partial: for such a body that is also well-formed (wf_body), the string
+   String(body) ++ "{/template}" goes through the scanner model and then through the command-level parser model
+   (from its initial state, for every budget above a bound, with the entry points' expression budget) to the
+   body itself up to node positions: bytes -> items (above) -> any items with these types and texts are read as
+   the body up to positions (C17_parse_body_roundtrip_any_positions). ---- *)
+Theorem C17_lex_body_partial : forall q ns txt, lb17_okb ns -> print_tree (NList q ns) = Some txt ->
+  exists its e, lex_items is_letter_tbl is_digit_tbl (lex_budget txt) false txt = Ok (its ++ [e]) /\ t_typ e = itemEOF /\
+    map tv its = map tv (body_toks (NList q ns)).
+Proof. exact lb17_lex_body_tbl. Qed.
+Print Assumptions C17_lex_body_partial.
+
+Theorem C17_template_body_text_roundtrip_partial :
+  forall (inlen inlen' : N) (lexq : bstr -> list tok) (unq : bstr -> option bstr),
+  (forall s q, go_quote s = Some q -> unq q = Some s) ->
+  forall q ns txt,
+  wf_body lexq (nameok [] []) false (NList q ns) -> lb17_okb ns -> print_tree (NList q ns) = Some txt ->
+  exists its,
+    lex_items is_letter_tbl is_digit_tbl (lex_budget (txt ++ b "{/template}")) false (txt ++ b "{/template}") = Ok its /\
+    exists f0, forall f, (f0 <= f)%nat ->
+      exists x' s', item_list inlen' lexq unq parse_expr expr_fuel f u_template (cst_init its) = COk x' s' /\
+                    cps_strip x' = cps_strip (NList q ns).
+Proof. exact template_body_text_roundtrip. Qed.
+Print Assumptions C17_template_body_text_roundtrip_partial.
+
+(* non-vacuity: a{if $x}b{else}{debugger}{/if}{let $y}c{/let} with positions that satisfy wf_body *)
+Definition ex_bytes_nodes : list node :=
+  [ NRawText 1 [97];
+    NIf 3 [ NIfCond 3 (Some (NDataRef 4 [120] [])) (NList 5 [NRawText 5 [98]]);
+            NIfCond 3 None (NList 0 [NDebugger 6]) ];
+    NLetContent 7 [121] (NList 8 [NRawText 8 [99]]) ].
+Example C17_bytes_example_wf : wf_body ex_lexq (nameok [] []) false (NList 1 ex_bytes_nodes).
+Proof.
+  cbn -[rawtext_run]. repeat split; try (vm_compute; reflexivity); try (vm_compute; discriminate).
+Qed.
+Example C17_bytes_example_ok : lb17_okb ex_bytes_nodes.
+Proof.
+  unfold ex_bytes_nodes.
+  apply lb17_example_text; try lia; try reflexivity.
+  apply lb17_ok_cmd.
+  { apply lb17_ok_if. apply lb17_ok_conds_cond.
+    - exact I.
+    - split; [reflexivity|exact I].
+    - apply lb17_example_text; try lia; try reflexivity. apply lb17_ok_nil.
+    - apply lb17_ok_conds_else. apply lb17_ok_cmd; [apply lb17_ok_debugger|apply lb17_ok_nil]. }
+  apply lb17_ok_cmd; [|apply lb17_ok_nil].
+  apply lb17_ok_letc; [reflexivity|]. apply lb17_example_text; try lia; try reflexivity. apply lb17_ok_nil.
+Qed.
+Example C17_bytes_example_text :
+  print_tree (NList 1 ex_bytes_nodes) = Some (b "a{if $x}b{else}{debugger}{/if}{let $y}c{/let}").
+Proof. vm_compute. reflexivity. Qed.
